@@ -544,6 +544,40 @@ class Real:
         assert any(n.op_type == "Identity" and n.inputs[0].name == "x" for n in m.graph)
         return "T"
 
+    def rule_reshape_reshape(self, shape, oshape, az, xshape, s0, inner_az=None):
+        """Apply the real `reshape_reshape_rule` to Reshape(Reshape(x, s0), shape).  shape: list (constant) | ("dyn", k)
+        (graph input of length k); az: None (attribute absent) | int; s0: list (constant) | None (graph input).
+        Answer: "N" | "RAISE" | "<new target> az<0|1>"."""
+        from onnx import TensorProto, helper, numpy_helper
+
+        inputs = [self._vi("x", TensorProto.FLOAT, xshape)]
+        inits = []
+        if s0 is None:
+            inputs.append(self._vi("s0", TensorProto.INT64, [None]))
+        else:
+            inits.append(numpy_helper.from_array(np.array(s0, dtype=np.int64), "s0"))
+        if isinstance(shape, tuple):
+            inputs.append(self._vi("s1", TensorProto.INT64, [shape[1]]))
+        else:
+            inits.append(numpy_helper.from_array(np.array(shape, dtype=np.int64), "s1"))
+        a1 = {} if az is None else {"allowzero": az}
+        a0 = {} if inner_az is None else {"allowzero": inner_az}
+        nodes = [helper.make_node("Reshape", ["x", "s0"], ["mid"], **a0), helper.make_node("Reshape", ["mid", "s1"], ["out"], **a1)]
+        g = helper.make_graph(nodes, "g", inputs, [self._vi("out", TensorProto.FLOAT, oshape)], initializer=inits)
+        m = self.ir.from_proto(helper.make_model(g, opset_imports=[helper.make_opsetid("", 18)], ir_version=8))
+        try:
+            cnt = self.RewriteRuleSet([self.br.reshape_reshape_rule]).apply_to_model(m)
+        except IndexError:
+            return "RAISE"
+        if cnt == 0:
+            return "N"
+        rs = [n for n in m.graph if n.op_type == "Reshape"]
+        assert len(rs) == 1 and rs[0].inputs[0].name == "x", "rewritten Reshape must read x"
+        n = rs[0]
+        tgt = n.inputs[1].const_value.numpy().tolist()
+        a = n.attributes.get_int("allowzero", 0)
+        return enc_ints(tgt) + f" az{a}"
+
     def get_shape_value(self, kind, is_i64, ndim, vals, sym):
         cf, ir = self.cf, self.ir
         state = cf.OptimizerState()
